@@ -42,6 +42,39 @@ func c09filter(c *Ctx, fn *ssa.Function, dataType string) {
 			}
 		}
 	}
+	// a two-stage form: the details are first filtered into a local map, which is then published
+	// (copied entry by entry, or handed on whole): the filter condition belongs to the first store
+	var others []*ssa.MapUpdate
+	for _, b := range fn.Blocks {
+		for _, in := range b.Instrs {
+			if mu, ok := in.(*ssa.MapUpdate); ok && !isBoolMap(mu.Map.Type()) && mu != store {
+				others = append(others, mu)
+			}
+		}
+	}
+	if store == nil && len(others) == 1 {
+		store, others = others[0], nil
+	}
+	for hop := 0; hop < 2 && store != nil; hop++ {
+		var src ssa.Value
+		if rg := nearRange(store.Key); rg != nil {
+			src = rg.X
+		}
+		if src == nil {
+			break
+		}
+		moved := false
+		for _, mu := range others {
+			if sole(mu.Map) == sole(src) || flow.Root(mu.Map) == flow.Root(src) {
+				if r1, r2 := nearRange(store.Key), nearRange(store.Value); r1 != nil && r1 == r2 { // the copy keeps key and value together
+					store, moved = mu, true
+				}
+			}
+		}
+		if !moved {
+			break
+		}
+	}
 	isFilter := func(v ssa.Value) bool {
 		return flow.Default.Any(v, func(x ssa.Value) bool {
 			return isFieldSel(x, "composite.APIFilteredSecretPublisher", "filter") || isFieldSel(x, "composite.SecretStoreConnectionPublisher", "filter")
@@ -597,4 +630,27 @@ func stripConv(v ssa.Value) ssa.Value {
 			return v
 		}
 	}
+}
+
+// nearRange: the range statement v is the key or value variable of (not one further back in its history).
+func nearRange(v ssa.Value) *ssa.Range {
+	for i := 0; i < 4; i++ {
+		switch x := v.(type) {
+		case *ssa.Extract:
+			v = x.Tuple
+		case *ssa.Next:
+			v = x.Iter
+		case *ssa.Range:
+			return x
+		case *ssa.MakeInterface:
+			v = x.X
+		case *ssa.ChangeType:
+			v = x.X
+		case *ssa.Convert:
+			v = x.X
+		default:
+			return nil
+		}
+	}
+	return nil
 }
